@@ -107,6 +107,18 @@ cfn("blobs.c:merge", lens={"b1": "NPROPERTY", "b2": "NPROPERTY"}, assigns=["b1",
                        ["forall(0, NPROPERTY, lambda q: b2[q] == 0)"])),
     props=["C12", "C20"])
 
-cfn("blobs.c:compute_moments", lens={"b": "nb*NPROPERTY"}, assigns=["b"],
-    requires=["nb >= 0", "nb*NPROPERTY <= INT_MAX"],
+# compute_moments: for an arbitrary (ghost) peak row r0 with at least one pixel: average intensity and the three intensity weighted
+# centroids are the quotients of the accumulated sums; the sums themselves are not touched
+CM_OFF = "r0*NPROPERTY"
+CM_POST = ["b[avg_i + %s] == old.b[s_I + %s] / old.b[s_1 + %s]" % (CM_OFF, CM_OFF, CM_OFF)] + \
+          ["b[%s + %s] == old.b[%s + %s] / old.b[s_I + %s]" % (dst, CM_OFF, src, CM_OFF, CM_OFF)
+           for dst, src in (("f_raw", "s_fI"), ("s_raw", "s_sI"), ("o_raw", "s_oI"))] + \
+          ["b[%s + %s] == old.b[%s + %s]" % (n, CM_OFF, n, CM_OFF) for n in SUMS]
+cfn("blobs.c:compute_moments", lens={"b": "nb*NPROPERTY"}, assigns=["b"], ghosts=["r0"],
+    requires=["nb >= 0", "nb*NPROPERTY <= INT_MAX"] + T("C12", "0 <= r0", "r0 < nb", "old.b[s_1 + %s] != 0" % CM_OFF,
+                                                         # a blob that has pixels has a non-zero summed intensity (pixels above a non-negative threshold)
+                                                         "forall(0, nb, lambda r: implies(b[s_1 + r*NPROPERTY] != 0, b[s_I + r*NPROPERTY] != 0))"),
+    loops={0: T("C12", "forall(i*NPROPERTY, nb*NPROPERTY, lambda q: b[q] == old.b[q])",
+                "implies(r0 < i, And_(%s))" % ", ".join(CM_POST))},
+    ensures=T("C12", *CM_POST),
     props=["C12", "C20"])
